@@ -2,6 +2,265 @@
 #![allow(unused_imports)]
 use super::*;
 use crate::verif_common::*;
+use std::sync::Arc;
+
+// ------------------------------------------------------------------ C12
+
+/// modes in order of increasing strictness
+fn mode(k: u8) -> UndefinedBehavior {
+    match k {
+        0 => UndefinedBehavior::Chainable,
+        1 => UndefinedBehavior::Lenient,
+        2 => UndefinedBehavior::SemiStrict,
+        _ => UndefinedBehavior::Strict,
+    }
+}
+
+/// 0: undefined, 1: silent undefined (`x if c` without else), 2: none, 3: false, 4: 0, 5: ""
+fn falsy(k: u8) -> Value {
+    match k {
+        0 => Value::UNDEFINED,
+        1 => Value(ValueRepr::Undefined(UndefinedType::Silent)),
+        2 => Value::from(()),
+        3 => Value::from(false),
+        4 => Value::from(0i64),
+        _ => Value::from(""),
+    }
+}
+
+fn is_ok_forget<T>(r: Result<T, Error>) -> bool {
+    let ok = r.is_ok();
+    core::mem::forget(r);
+    ok
+}
+
+// @verif props=C12 tier=quick cap=300 group=core fns=UndefinedBehavior::{is_true,assert_iterable,assert_value_not_undefined,handle_undefined}
+/// The documented matrix, cell by cell, for all 4 modes x {undefined, silent undefined, none, false, 0, ""}:
+/// truth-testing an undefined fails only under Strict; iterating / coercing one fails under Strict and
+/// SemiStrict; a silent undefined never fails; attribute access on an undefined (handle_undefined(true)) fails
+/// everywhere except Chainable and a first-level miss (handle_undefined(false)) never fails.
+#[kani::proof]
+#[kani::unwind(3)]
+fn c12_undefined_matrix() {
+    let mk: u8 = kani::any();
+    kani::assume(mk < 4);
+    let vk: u8 = kani::any();
+    kani::assume(vk < 6);
+    let m = mode(mk);
+    let v = falsy(vk);
+    let plain_undefined = vk == 0;
+    let strict = mk == 3;
+    let semi_or_strict = mk >= 2;
+
+    let t = m.is_true(&v);
+    match t {
+        Ok(b) => {
+            assert!(!b);
+            assert!(!(strict && plain_undefined));
+        }
+        Err(ref e) => {
+            assert!(strict && plain_undefined);
+            assert!(matches!(e.kind(), ErrorKind::UndefinedError));
+        }
+    }
+    core::mem::forget(t);
+    assert!(is_ok_forget(m.assert_iterable(&v)) == !(semi_or_strict && plain_undefined));
+    assert!(is_ok_forget(m.assert_value_not_undefined(&v)) == !(semi_or_strict && plain_undefined));
+    let first = m.handle_undefined(false);
+    assert!(matches!(first, Ok(ref x) if x.is_undefined()));
+    core::mem::forget(first);
+    assert!(is_ok_forget(m.handle_undefined(true)) == (mk == 0));
+    kani::cover!(strict && plain_undefined);
+    kani::cover!(mk == 2 && vk == 1);
+    kani::cover!(mk == 0 && vk == 5);
+    core::mem::forget(v);
+}
+
+// @verif props=C12 tier=quick cap=300 group=core fns=UndefinedBehavior::{is_true,assert_iterable,assert_value_not_undefined,handle_undefined}
+/// Monotonicity: for every pair of modes weaker <= stricter and every value, each helper that succeeds under the
+/// stricter mode succeeds under the weaker one with the same answer (strictness only adds errors).
+#[kani::proof]
+#[kani::unwind(3)]
+fn c12_undefined_monotone() {
+    let a: u8 = kani::any();
+    let b: u8 = kani::any();
+    kani::assume(a <= b && b < 4);
+    let vk: u8 = kani::any();
+    kani::assume(vk < 6);
+    let (weak, strict) = (mode(a), mode(b));
+    let v = falsy(vk);
+    let (tw, ts) = (weak.is_true(&v), strict.is_true(&v));
+    if let Ok(x) = ts {
+        assert!(matches!(tw, Ok(y) if y == x));
+    }
+    core::mem::forget((tw, ts));
+    if is_ok_forget(strict.assert_iterable(&v)) {
+        assert!(is_ok_forget(weak.assert_iterable(&v)));
+    }
+    if is_ok_forget(strict.assert_value_not_undefined(&v)) {
+        assert!(is_ok_forget(weak.assert_value_not_undefined(&v)));
+    }
+    let p: bool = kani::any();
+    if is_ok_forget(strict.handle_undefined(p)) {
+        assert!(is_ok_forget(weak.handle_undefined(p)));
+    }
+    kani::cover!(a < b && vk == 0);
+    core::mem::forget(v);
+}
+
+// ------------------------------------------------------------------ C02
+
+/// Decodes `out` with the 6-entry entity table; returns false if a raw
+/// metacharacter or a malformed entity occurs or the decoded text differs
+/// from `input`.
+fn escapes_to(input: &[u8], out: &[u8]) -> bool {
+    let mut i = 0; // position in out
+    let mut k = 0; // position in input
+    while i < out.len() {
+        let b = out[i];
+        if b == b'&' {
+            // must be one of the entities
+            let mut matched = false;
+            let cands: [u8; 6] = [b'<', b'>', b'&', b'"', b'\'', b'/'];
+            let mut c = 0;
+            while c < 6 {
+                let ent = html_entity(cands[c]).unwrap();
+                if i + ent.len() <= out.len() {
+                    let mut same = true;
+                    let mut j = 0;
+                    while j < ent.len() {
+                        if out[i + j] != ent[j] {
+                            same = false;
+                        }
+                        j += 1;
+                    }
+                    if same && !matched {
+                        if k >= input.len() || input[k] != cands[c] {
+                            return false;
+                        }
+                        matched = true;
+                        i += ent.len();
+                        k += 1;
+                    }
+                }
+                c += 1;
+            }
+            if !matched {
+                return false;
+            }
+        } else {
+            if b == b'<' || b == b'>' || b == b'"' || b == b'\'' {
+                return false;
+            }
+            if k >= input.len() || input[k] != b {
+                return false;
+            }
+            i += 1;
+            k += 1;
+        }
+    }
+    k == input.len()
+}
+
+// @verif props=C02 tier=quick cap=300 group=core fns=needs_html_escaping
+/// needs_html_escaping(s) is true exactly when s contains one of the six characters HtmlEscape rewrites
+/// (the fast-path pre-scan and the escaper must agree) - all strings of <=3 bytes below 0x80.
+#[kani::proof]
+#[kani::unwind(5)]
+fn c02_needs_escaping_agrees_with_table() {
+    let buf: [u8; 3] = kani::any();
+    let len: usize = kani::any();
+    kani::assume(len <= 3);
+    kani::assume(buf[0] < 0x80 && buf[1] < 0x80 && buf[2] < 0x80);
+    let s = unsafe { core::str::from_utf8_unchecked(&buf[..len]) };
+    let mut want = false;
+    let mut i = 0;
+    while i < len {
+        if html_entity(buf[i]).is_some() {
+            want = true;
+        }
+        i += 1;
+    }
+    assert!(needs_html_escaping(s) == want);
+    kani::cover!(want && len == 3);
+    kani::cover!(!want && len == 3);
+    kani::cover!(len == 1 && buf[0] == b'>');
+}
+
+macro_rules! escape_harness {
+    ($name:ident, $n:expr, $unwind:expr, $mk:expr) => {
+        #[kani::proof]
+        #[kani::unwind($unwind)]
+        fn $name() {
+            let buf: [u8; $n] = kani::any();
+            let mut i = 0;
+            while i < $n {
+                kani::assume(buf[i] < 0x80);
+                i += 1;
+            }
+            let s = unsafe { core::str::from_utf8_unchecked(&buf[..]) };
+            let v: Value = $mk(s);
+            let mut rec = Rec::<24>::new();
+            let r = {
+                let mut out = Output::new(&mut rec);
+                let r = write_escaped(&mut out, AutoEscape::Html, &v);
+                core::mem::forget(out);
+                r
+            };
+            assert!(r.is_ok());
+            assert!(!rec.overflow);
+            assert!(escapes_to(&buf[..], rec.bytes()));
+            kani::cover!(rec.len > $n);
+            kani::cover!(rec.len == $n);
+            core::mem::forget(r);
+            core::mem::forget(v);
+        }
+    };
+}
+
+fn mk_small(s: &str) -> Value {
+    Value::from(s)
+}
+fn mk_arc(s: &str) -> Value {
+    Value(ValueRepr::String(Arc::from(s), StringType::Normal))
+}
+
+// @verif-block props=C02,C19 group=core doc=write_escaped(out,Html,v)_for_an_unsafe_string_of_N_symbolic_ASCII_bytes:_the_bytes_received_by_the_sink_contain_no_raw_<>"'_and_decode_(6-entry_entity_table)_to_exactly_the_input,_i.e._escaped_exactly_once_(fast_paths_needs_html_escaping/is_ascii_integer_str_and_HtmlEscape_agree)
+escape_harness!(c02_escape_smallstr_1b, 1, 12, mk_small); // tier=quick cap=600
+escape_harness!(c02_escape_smallstr_2b, 2, 14, mk_small); // tier=quick cap=900
+escape_harness!(c02_escape_arcstr_2b, 2, 14, mk_arc); // tier=quick cap=900
+escape_harness!(c02_escape_smallstr_3b, 3, 21, mk_small); // tier=thorough cap=2400
+// @verif-end
+
+macro_rules! safe_verbatim_harness {
+    ($name:ident, $mode:expr) => {
+        #[kani::proof]
+        #[kani::unwind(14)]
+        fn $name() {
+            let buf: [u8; 2] = kani::any();
+            kani::assume(buf[0] < 0x80 && buf[1] < 0x80);
+            let s = unsafe { core::str::from_utf8_unchecked(&buf[..]) };
+            let v = Value(ValueRepr::String(Arc::from(s), StringType::Safe));
+            let mut rec = Rec::<8>::new();
+            let r = {
+                let mut out = Output::new(&mut rec);
+                let r = write_escaped(&mut out, $mode, &v);
+                core::mem::forget(out);
+                r
+            };
+            assert!(r.is_ok());
+            assert!(rec.len == 2 && rec.buf[0] == buf[0] && rec.buf[1] == buf[1]);
+            kani::cover!(buf[0] == b'<');
+            core::mem::forget(r);
+            core::mem::forget(v);
+        }
+    };
+}
+
+// @verif-block props=C02 group=core doc=a_string_marked_safe_(2_symbolic_ASCII_bytes)_is_written_byte-identically,_i.e._never_escaped_a_second_time
+safe_verbatim_harness!(c02_safe_string_verbatim_html, AutoEscape::Html); // tier=quick cap=600
+safe_verbatim_harness!(c02_safe_string_verbatim_none, AutoEscape::None); // tier=quick cap=600
+// @verif-end
 
 #[cfg(test)]
 mod playback {
